@@ -1108,7 +1108,10 @@ func remove(c context.Context,
 				for i := 0; i < oiProp.Len(); /*Conditional*/ {
 					id, err := ToId(oiProp.At(i))
 					if err != nil {
-						return err
+						// A member that names no id is none of the ids to
+						// remove: it stays.
+						i++
+						continue
 					}
 					if opIds[id.String()] {
 						oiProp.Remove(i)
@@ -1127,7 +1130,10 @@ func remove(c context.Context,
 				for i := 0; i < iProp.Len(); /*Conditional*/ {
 					id, err := ToId(iProp.At(i))
 					if err != nil {
-						return err
+						// A member that names no id is none of the ids to
+						// remove: it stays.
+						i++
+						continue
 					}
 					if opIds[id.String()] {
 						iProp.Remove(i)
